@@ -41,7 +41,7 @@ theorem inv_history (s : State) (ops : List Op) (i : Inv s) (h : Guarded .curren
 /-- **Refused ⇒ unchanged.** When an operation raises (anything but RecursionError) from a
 well-formed tree, every list, parent / document pointer, kind, flag and rectangle is what it was.
 (`SameTree` leaves out the caches — the assertion messages format groups with `repr`, which reads
-`bbox` — and the dirty flag, which `del g[k]` sets before the list raises IndexError.) No guard. -/
+`bbox` — and the dirty flags.) No guard. -/
 theorem refused_unchanged (s : State) (op : Op) (e : Err) (i : Inv s)
     (h : (step .current s op).2 = .error e) (hne : e ≠ .recursionError) : SameTree s (step .current s op).1 :=
   step_ref s op e i h hne
@@ -153,10 +153,11 @@ operation may fill a cache (the assertion message formats the group) … -/
 theorem refused_fills_cache : demo.cache 2 = none ∧
     (step .current demo (.extend 2 [2])).1.cache 2 = some BBox.zero := by decide
 
-/-- … and `del g[k]` sets the dirty flag before the list raises IndexError -/
-theorem delitem_refused_sets_dirty :
+/-- … the snapshot's `del g[k]` also set the dirty flag before the list raised IndexError
+(order changed by the C15 repair 19d58e7: list operation first) -/
+theorem delitem_refused_keeps_dirty :
     let s := { demo with dirty := fun _ => false }
-    (step .current s (.delitem 2 0)).2 = .error .indexError ∧ (step .current s (.delitem 2 0)).1.dirty 0 = true := by
+    (step .current s (.delitem 2 0)).2 = .error .indexError ∧ (step .current s (.delitem 2 0)).1.dirty 0 = false := by
   decide
 
 /-- Why the recursion limit appears in the hypotheses: with a budget of 1 the traversal made by
